@@ -66,11 +66,21 @@ def gen(rng, tier):
             steps.insert(rng.randint(p + 1, len(steps)), {"op": "register"})
     steps.append({"op": "isactive"})
     steps.append({"op": "build_chunked"})
-    return {"steps": steps, "nmods": n, "child_hashseed": rng.randrange(1, 2**31)}
+    # the interpreter's start configuration (the statement quantifies over configurations): dask reads
+    # DASK_* environment variables when it is first imported
+    cfg = {}
+    r = rng.random()
+    if r < 0.35:
+        cfg["DASK_ARRAY__QUERY_PLANNING"] = "True"
+    elif r < 0.5:
+        cfg["DASK_ARRAY__QUERY_PLANNING"] = "False"
+    if rng.random() < 0.15:
+        cfg["DASK_ARRAY__CHUNK_SIZE"] = rng.choice(["1KiB", "64MiB"])
+    return {"steps": steps, "nmods": n, "child_hashseed": rng.randrange(1, 2**31), "child_config": cfg}
 
 
 def shape_of(case, stats):
-    return [[(s["op"], s.get("mod")) for s in case["steps"]]]
+    return [[(s["op"], s.get("mod")) for s in case["steps"]], sorted((case.get("child_config") or {}).items())]
 
 
 def nontrivial(case, stats):
@@ -99,6 +109,11 @@ def execute(case, stats, log):
     env = dict(os.environ)
     env["PYTHONHASHSEED"] = str(case["child_hashseed"])
     env["PYTHONDONTWRITEBYTECODE"] = "1"
+    for k in [k for k in env if k.startswith("DASK_")]:
+        env.pop(k)
+    for k, v in (case.get("child_config") or {}).items():
+        env[k] = v
+        stats[f"fault.start_config.{k}={v}"] = 1
     repo = os.environ.get("VERIF_REPO")
     if repo and os.environ.get("VERIF_KEEP_PYTHONPATH"):
         env["PYTHONPATH"] = repo
@@ -127,6 +142,8 @@ def execute(case, stats, log):
 
 
 def candidates(case):
+    if case.get("child_config"):
+        yield dict(case, child_config={})
     steps = case["steps"]
     n = len(steps)
     size = n // 2
